@@ -22,7 +22,7 @@ func init() {
 		Rule: "each case is an abstract configuration (attributes with JSON-expressible literals or scope expressions written natively as expr and in JSON as \"${expr}\"; blocks with 0-3 labels, nested to depth 3), a generated hcldec spec tree (and the hcl.BodySchema it implies), optionally one perturbation (missing required item, extra attribute or block type, wrong literal type, duplicated/removed blocks), rendered natively (random layout) and in 6 JSON encodings (object / array-of-objects root, duplicate property names, per-type arrays, label levels as objects or arrays of single-property objects, arrays of bodies, // comment properties, property order permutations, whitespace/escape variation); attribute names, block sequences with labels, decoded values and error-ness must agree with the native reading; " +
 			"non-trivial = the configuration has >= 1 labelled block and >= 3 items; distinct by native rendering + spec kinds",
 		Assumptions: []string{"total block order is compared only for order-preserving encodings; per-type order always (json/spec.md cannot carry cross-type order when blocks are grouped by type)", "label-count mismatches are excluded (the JSON reading is schema-directed)"},
-		Quick:       Plan{Batches: 16, PerBatch: 800, MinNonTrivial: 4000},
+		Quick:       Plan{Batches: 16, PerBatch: 1500, MinNonTrivial: 8000},
 		Thorough:    Plan{Batches: 64, PerBatch: 12000, MinNonTrivial: 200000},
 		Case:        c03Case,
 	})
